@@ -12,9 +12,10 @@ Float bounds (the only inexact comparisons; everything else is exact):
   INTERP_TOL: |sum_j B_j(node) c_j - g(G(node))| <= 1e-11 * max(1, max|g|) at every Greville node of a
     boundary face.  Derivation: the coefficients c solve (C_1 x ... x C_k) c = g(nodes), k <= 2 face
     axes, by one banded LU solve per axis.  Every C_a is a collocation matrix at Greville abscissae
-    with n <= 7 (generators: degree <= 3, <= 4 spans), non-negative entries, row sums 1, totally
-    positive (no pivot growth), cond_inf <= 40 at these sizes.  A backward stable solve leaves a
-    residual <= 3 n u cond |g| = 3*7*1.1e-16*40 |g| ~ 1e-13 |g| per axis (u = 2^-53); the oracle
+    with n <= 8 (generators: degree <= 3, <= 4 interior knots, uniform / graded / doubled knots),
+    non-negative entries, row sums 1, totally positive (no pivot growth), cond_inf <= 100 at these
+    sizes.  A backward stable solve leaves a residual <= 3 n u cond |g| = 3*8*1.1e-16*100 |g| ~ 2.7e-13 |g|
+    per axis (u = 2^-53); the oracle
     re-multiplies by C_a exactly (row sums 1, no amplification).  Two axes: < 1e-12 |g|.
     INTERP_TOL = 1e-11 (the value fixed in DESIGN.md, C10) leaves a factor >= 10; the largest
     deviation of a run is recorded in the evidence (observed ~1e-15).
@@ -572,6 +573,12 @@ def gen_bdofs(ctx):
             for bs in specs + pairs:
                 flip = None if rng.random() < 0.5 else [rng.random() < 0.5 for _ in range(dim - 1)]
                 cases.append({'kvs': kvs, 'bdspec': bs, 'flip': flip})
+    for dim in (2, 3):
+        for _ in range(2 if ctx.tier == 'quick' else 10):
+            fam = knot_family(rng.randint(2, 3), rng.randint(2, 4))
+            kvs = [rng.choice(fam) for _ in range(dim)]
+            for bs in ['left', 'right', 'bottom', 'top'] + [[ax, s] for ax in range(dim) for s in (0, 1)]:
+                cases.append({'kvs': kvs, 'bdspec': bs, 'flip': None})
     return cases
 
 
@@ -579,6 +586,63 @@ GEOS2 = [{'name': 'identity'}, {'name': 'affine', 'scale': [2.0, 0.5], 'shift': 
          {'name': 'bspline_annulus'}]
 GEOS3 = [{'name': 'identity'}, {'name': 'affine', 'scale': [0.5, 2.0, 1.5], 'shift': [0.25, 1.0, -1.0]}, {'name': 'twisted_box'}]
 GS = ['one', 'lin', 'quad', 'cub', 'vec2', 'vec3', 1.5, -2, 0]
+
+
+def spec_p(s):
+    return s['p'] if isinstance(s, dict) else s[0]
+
+
+def spec_numdofs(s):
+    return len(s['knots']) - s['p'] - 1 if isinstance(s, dict) else s[0] + s[1]
+
+
+def spec_numspans(s):
+    return len(set(s['knots'])) - 1 if isinstance(s, dict) else s[1]
+
+
+def spec_support(s):
+    return (s['knots'][0], s['knots'][-1]) if isinstance(s, dict) else (s[2], s[3])
+
+
+def knot_family(p, ninner, a=0.0, b=1.0):
+    """Different open knot vectors with the SAME degree, number of dofs (p+1+ninner) and interval:
+    uniform, graded towards a, graded towards b, one knot moved, and (p >= 2) doubled interior knots."""
+    h = b - a
+    def mk(inner):
+        return {'p': p, 'knots': [a] * (p + 1) + [float(t) for t in inner] + [b] * (p + 1)}
+    fam = [mk([a + h * k / (ninner + 1) for k in range(1, ninner + 1)]),
+           mk([a + h * (k / (ninner + 1)) ** 2 for k in range(1, ninner + 1)]),
+           mk([b - h * ((ninner + 1 - k) / (ninner + 1)) ** 2 for k in range(1, ninner + 1)]),
+           mk([a + h * (k + (0.5 if k == 1 else 0)) / (ninner + 2) for k in range(1, ninner + 1)])]
+    if p >= 2 and ninner >= 2:
+        nd = ninner // 2
+        dbl = [a + h * k / (nd + 1) for k in range(1, nd + 1) for _ in (0, 1)]
+        if ninner % 2:
+            dbl = sorted(dbl + [a + h * (nd + 0.5) / (nd + 1)])
+        fam.append(mk(dbl))
+    return fam
+
+
+def gen_bc_aniso(ctx):
+    """Anisotropic spaces: the directions have equal degree, equal number of dofs and the same interval but
+    DIFFERENT knots (graded, moved, repeated interior knots); every face on its own and the 'all' shorthand,
+    non-constant scalar and vector data.  All cases run in one driver process, one after the other."""
+    rng = ctx.rng
+    cases = []
+    reps = 12 if ctx.tier == 'thorough' else 2
+    for dim, geos in ((2, [{'name': 'identity'}, {'name': 'annulus'}]), (3, [{'name': 'identity'}, {'name': 'twisted_box'}])):
+        faces = [[ax, s] for ax in range(dim) for s in (0, 1)]
+        for geo in geos:
+            for _ in range(reps):
+                pdeg = rng.choice([2, 2, 3, 3, 1])      # (degree 1: the Greville collocation matrix is the identity)
+                fam = knot_family(pdeg, rng.randint(2, 4 if dim == 2 else 3))
+                kvs = rng.sample(fam, dim)
+                for order in (kvs, kvs[::-1]):
+                    g = rng.choice(['quad', 'cub', 'vec2', 'lin'])
+                    cases.append({'kvs': order, 'geo': geo, 'call': 'all', 'conds': [[f, g] for f in faces]})
+                    for f in faces:
+                        cases.append({'kvs': order, 'geo': geo, 'call': 'one', 'conds': [[f, rng.choice(['quad', 'cub', 'vec3'])]]})
+    return cases
 
 
 def rand_kvs(rng, dim, mx=4):
@@ -665,6 +729,15 @@ def gen_ic(ctx):
         for side in (0, 1):
             cases.append({'kvs': kvs, 'geo': {'name': 'identity'}, 'bdspec': [tax, side],
                           'g0': rng.choice(['one', 'lin', 'quad', 'cub']), 'g1': rng.choice(['one', 'lin', 'quad'])})
+    # equal degree / size / interval in all directions, different knots
+    for _ in range(3 if ctx.tier == 'quick' else 20):
+        dim = rng.choice([2, 3])
+        iv = rng.choice([(0, 1), (2, 3)])
+        fam = knot_family(rng.randint(2, 3), rng.randint(2, 3), float(iv[0]), float(iv[1]))   # degree 1: collocation = identity
+        kvs = rng.sample(fam, dim)
+        for tax in range(dim):
+            cases.append({'kvs': kvs, 'geo': {'name': 'identity'}, 'bdspec': [tax, rng.randint(0, 1)],
+                          'g0': rng.choice(['quad', 'cub']), 'g1': rng.choice(['lin', 'quad'])})
     return cases
 
 
@@ -696,7 +769,7 @@ def gen_mp(ctx):
 # ---------------------------------------------------------------------------
 
 def kv_shape(kvs):
-    return [n + p for (p, n, a, b) in kvs]
+    return [spec_numdofs(k) for k in kvs]
 
 
 def check_local_bc(kvdata, shape, bs, g, lidx, lvals, faces):
@@ -845,7 +918,7 @@ FAMILIES = ('rls', 'slices', 'bdofs', 'bc', 'combine', 'dropnans', 'ic', 'mp')
 
 def gen_all(ctx):
     rls, dist = gen_rls(ctx)
-    P = {'rls': rls, 'slices': gen_slices(ctx), 'bdofs': gen_bdofs(ctx), 'bc': gen_bc(ctx) + gen_bc1d(ctx),
+    P = {'rls': rls, 'slices': gen_slices(ctx), 'bdofs': gen_bdofs(ctx), 'bc': gen_bc(ctx) + gen_bc1d(ctx) + gen_bc_aniso(ctx),
          'combine': gen_combine(ctx), 'dropnans': gen_dropnans(ctx), 'ic': gen_ic(ctx), 'mp': gen_mp(ctx)}
     return P, dist
 
@@ -947,7 +1020,7 @@ def process(ctx, P, res, dist):
     for k, (c, r) in enumerate(zip(bdofs, res['bdofs'])):
         dim = len(c['kvs'])
         shape = kv_shape(c['kvs'])
-        cells = [n for (p, n, a, b) in c['kvs']]
+        cells = [spec_numspans(k) for k in c['kvs']]
         ctx.count(('bdofs', c['kvs'], c['bdspec'], c['flip']))
         pa = parse_bdspec_oracle(c['bdspec'], dim)
         if pa is None:
@@ -1006,6 +1079,15 @@ def process(ctx, P, res, dist):
             failed = True
             ctx.report('impl:bcs:combine:%s' % c['call'], 'compute_dirichlet_bcs does not keep exactly one of the given values per dof of the '
                        'requested faces: ' + why, {'case': c, 'impl': {kk: r[kk] for kk in ('local', 'idx', 'vals')}})
+        # the values of the COMBINED result of the 'all' shorthand on every face (same data on all faces)
+        if c['call'] == 'all' and not why and not failed:
+            comb_val = dict(zip(r['idx'], r['vals']))
+            for (bs, g), (lidx, _lv) in zip(c['conds'], r['local']):
+                bad, w = check_local_bc(r['kvs'], shape, bs, g, lidx, [comb_val[i] for i in lidx], r['faces'])
+                worst = max(worst, w)
+                if bad:
+                    ctx.report('impl:bcs:all-values:%s:%s:%s' % (bad[0], tag, c['geo']['name']), "compute_dirichlet_bcs(('all', g)): " + bad[1],
+                               {'case': c, 'impl': {kk: r[kk] for kk in ('idx', 'vals')}})
         lv, ev = vids_of([l[1] for l in r['local']], r['vals'])
         texts.append('(%s, %s, %s, %s, %s, %s, (%s, %s))' % (
             nl(shape), clist(['(%s, %d)' % (cbd(bs), ncomp_of(g)) for bs, g in c['conds']]), nll([[] for _ in c['conds']]),
@@ -1058,7 +1140,7 @@ def process(ctx, P, res, dist):
     for c, r in zip(ic, res['ic']):
         shape = kv_shape(c['kvs'])
         ax, side = c['bdspec']
-        p, nsp, t0, t1 = c['kvs'][ax]
+        t0, t1 = spec_support(c['kvs'][ax])
         ctx.count(('ic', c['kvs'], c['bdspec'], c['g0'], c['g1']))
         unit = 'unit' if (t0, t1) == (0, 1) else 'general'
         if r['status'] != 'Ok':
@@ -1145,7 +1227,9 @@ def process(ctx, P, res, dist):
                        'all-but-one, empty) x scalar/array values and b x elim_rows (square and rectangular) x dense/csr/csc/coo; '
                        'slice_indices exhaustively for 1-3-D shapes with sizes<=%d, all axes, all indices incl. out of range, all flips; '
                        'boundary_dofs/cells for all names and pairs incl. invalid; compute_dirichlet_bc(s) for all faces of 2-D/3-D (and 1-D) '
-                       'spaces, 7 geometries, scalar/vector/constant data; combine_bcs with duplicates; initial conditions on several time '
+                       'spaces, 7 geometries, scalar/vector/constant data, incl. anisotropic spaces whose directions have equal degree, size and interval but '
+                       'different knots (graded, moved, doubled interior knots), all computed one after the other in ONE driver process, value oracle on every face '
+                       'of the single calls and of the combined result of the "all" shorthand; combine_bcs with duplicates; initial conditions on several time '
                        'intervals; multipatch rows. non-trivial = at least one constrained dof / more than one dof' % (4 if thorough else 3))
     dist.update({'slices': len(slices), 'bdofs': len(bdofs), 'bc': len(allbc), 'combine': len(comb), 'dropnans': len(dn), 'ic': len(ic), 'mp': len(mp)})
     ctx.cov['input_distribution'] = dist
@@ -1171,7 +1255,7 @@ def check_ic(c, r, shape):
     if len(r['vals']) != len(r['idx']):
         return ('lengths', 'indices and values differ in length'), Fraction(0)
     if any(v != v for v in r['vals']):
-        return ('nan', 'the computed coefficients are nan (time axis on [%s,%s])' % (c['kvs'][ax][2], c['kvs'][ax][3])), Fraction(0)
+        return ('nan', 'the computed coefficients are nan (time axis on [%s,%s])' % spec_support(c['kvs'][ax])), Fraction(0)
     val = {i: Fraction(v) for i, v in zip(r['idx'], r['vals'])}
     kvd = r['kvs']
     tk = [Fraction(t) for t in kvd[ax]['knots']]
